@@ -189,6 +189,10 @@ class Scenario:
             # production start-up state: the WAN estimate starts out as the LAN estimate (the host's own address)
             n.overlay.my_estimated_lan = n.address
             n.overlay.my_estimated_wan = n.address
+            if case.get("clock"):
+                # a node that has been up for a while: its Lamport clock (one tick per message it ever created, shared by
+                # all overlays on the key) is beyond what the 16-bit request identifiers can hold
+                n.overlay.update_global_time([0, 65534, 65535, 65536, 70000, 2 ** 32 + 5][case["clock"]] + idx)
             self.all.append(n)
             return n
 
@@ -610,6 +614,19 @@ def execute(ctx: Ctx | None, case: dict) -> list[dict]:
                 await sc.aftermath(out[-1])
                 for k in ("X_node", "desc", "clause", "lost"):
                     out[-1].pop(k, None)
+        except (Violation, HarnessError):
+            raise
+        except Exception as e:  # noqa: BLE001
+            import traceback
+            frames = traceback.extract_tb(e.__traceback__)
+            lib = [f for f in frames if "/ipv8/" in f.filename and "/pv/" not in f.filename]
+            if not lib or "/pv/" in frames[-1].filename:
+                raise
+            # the library call that makes a contact attempt (walk_to / send_introduction_request / a walker step) raised:
+            # that attempt reaches nobody
+            raise Violation("N3", "attempt_raises:" + lib[-1].name,
+                            f"a contact attempt raised {type(e).__name__}: {e} (in {lib[0].name} -> {lib[-1].name}); nothing "
+                            f"was sent, so the introduced peer is never reached", case) from None
         finally:
             hist.extend(sc.hist)
         if sc.net.escaped:
@@ -657,7 +674,7 @@ def base_case(cfg: dict, idx: int) -> dict:
             "b_new": cfg["b_new"], "fillers": [["pub", 0]] * (cfg["k"] - 1), "rseed": idx, "rounds": 1,
             "picks": [], "early": 0, "order": 0, "alike": (idx // 5) % 2, "disc": (idx // 10) % 2,
             "pool": (idx // 20) % 2, "walker": (idx // 2) % 3,
-            "dual": (idx // 3) % 3, "lose_first": (idx // 4) % 2, "outer": (idx // 7) % 3}
+            "dual": (idx // 3) % 3, "lose_first": (idx // 4) % 2, "outer": (idx // 7) % 3, "clock": (idx // 3) % 6}
 
 
 def _strategy(cfg: dict):
@@ -680,6 +697,7 @@ def _strategy(cfg: dict):
         "dual": st.sampled_from([0, 0, 1, 1, 2]),
         "lose_first": st.sampled_from([0, 0, 1]),
         "outer": st.sampled_from([0, 0, 0, 1, 2]),
+        "clock": st.sampled_from([0, 0, 1, 2, 3, 4, 5]),
     })
 
 
